@@ -96,9 +96,14 @@ def fullGC (s : St) (fails : List Path) : St :=
            managed := s.managed.filter (fun p => !deleted.contains p),
            pending := none, deleted := deleted, failed := toDel.filter (fun p => fails.contains p) }
 
+/-- first occurrences only -/
+def dedup : List Path → List Path
+  | [] => []
+  | a :: l => a :: (dedup l).filter (· != a)
+
 /-- the same collection as small steps -/
 def fullGCSteps (s : St) (fails : List Path) : List Ev :=
-  let toDel := (s.managed.filter (fun p => !(living s).contains p)).eraseDups
+  let toDel := dedup (s.managed.filter (fun p => !(living s).contains p))
   [Ev.gcCompute] ++ toDel.map (fun p => Ev.gcDelete p (!fails.contains p)) ++ [Ev.gcFinish]
 
 /-- GC state a fresh process starts from after a crash left `img`: the inventory holds exactly
@@ -267,5 +272,11 @@ deriving Repr, Inhabited, DecidableEq
 def committedMetas (dropEmpty : Bool) (reg : List SegEntry) : List SegEntry × List SegEntry :=
   let listed := reg.filter (fun e => decide (0 < e.numDocs))
   (if dropEmpty then listed else reg, listed)
+
+/-- `ManagedDirectory::open_write` as storage operations, in the extracted order of its two steps
+(1 = register_file_as_managed: `.managed.json` rewritten with `p` added, 2 = create the file)
+-- mirrors: src/directory/managed_directory.rs::open_write -/
+def managedOpenWriteOps (order : List Nat) (mg : Payload) (p : Path) : List Op :=
+  order.filterMap (fun c => if c = 1 then some (Op.atomicWrite MANAGED mg) else if c = 2 then some (Op.create p) else none)
 
 end TantivyModel.GC
